@@ -526,7 +526,7 @@ def run_group(sc, g):
     cthread = None
     if canary_ids:
         def run_canaries():
-            w, r = _portfolio(g, binary, g.canary_backends, min(g.timeout, 600), props=canary_ids, tagsuffix="-canary")
+            w, r = _portfolio(g, binary, g.canary_backends, g.timeout, props=canary_ids, tagsuffix="-canary")
             cres["w"] = w
             cres["r"] = r
         cthread = threading.Thread(target=run_canaries)
